@@ -22,7 +22,11 @@ ASSUME = [
     "tie: every scheduled real run's operation trace (thread, operation, value) is replayed step by step "
     "through the extracted model (same schedule, same deliveries, same final state); schedules are seeded "
     "random walks / priority schedules and exhaustive enumeration for small scenarios; scheduling points are "
-    "the instance's queue/lock operations, _in_handshake, profile.write_config, thread start and script events",
+    "the instance's queue/lock operations (incl. a point AFTER every release of the flush lock), every delivery "
+    "to the layer above that happens outside the flush lock, _in_handshake, profile.write_config, thread start "
+    "and script events; the window at handshake completion (frames queued during the handshake and flushed by "
+    "the worker while the network thread receives the next frame) is searched with one / two preemptions at "
+    "every scheduling point after the state became transport",
     "presented payload: the model's auth events carry the configuration in force when they are emitted "
     "(account, passive flag, attribute tuple as opaque codes); the responder decrypts the ClientPayload of "
     "every connection; per connection it is compared with the model's prediction for that login (final "
@@ -460,6 +464,99 @@ def run_history(chk, scn, chooser, chunk_seed, kind):
     return chk.run_case(scn, fixed_chooser(obs["trace"]), chunk_seed, kind)
 
 
+# ---------------------------------------------------------------- the window at handshake completion
+class PreemptChooser(object):
+    """Bounded-preemption schedules around the completion of the handshake.
+    Until the protocol state becomes transport: network thread first (frames pushed behind the server hello
+    are queued while the client is still in handshake state).  From then on: the running thread keeps running
+    until it blocks or ends, except at the decisions (numbered from the transition) listed in `points`, where
+    the other ready thread is given the baton.  hist: per decision after the transition (index, ready
+    threads, running thread, its pending operation, chosen)."""
+
+    def __init__(self, points=()):
+        self.points = set(points)
+        self.post = False
+        self.scanned = 0
+        self.k = 0
+        self.cur = None
+        self.hist = []
+
+    def __call__(self, ready, sched):
+        if not self.post:
+            log = sched.log
+            while self.scanned < len(log):
+                e = log[self.scanned]
+                self.scanned += 1
+                if e[1] == 3 and e[2] == 2:
+                    self.post = True
+                    break
+        if not self.post:
+            self.cur = min(ready)
+            return self.cur
+        idx = self.k
+        self.k += 1
+        cur = self.cur if self.cur in ready else None
+        if cur is None:
+            pick = min(ready)
+        elif idx in self.points and len(ready) > 1:
+            pick = min(t for t in ready if t != cur)
+        else:
+            pick = cur
+        self.hist.append({"idx": idx, "ready": list(ready), "cur": cur,
+                          "op": sched.thr[cur]["op"] if cur is not None else None, "chosen": pick})
+        self.cur = pick
+        return pick
+
+
+def window_scn(variant, early, late, glue=True, chunk="whole"):
+    """`early` server frames pushed right behind the server hello (in the same read when the server can already
+    encrypt: resumed login), then `late` frames that reach the network thread once the state is transport"""
+    script = [("auth",), ("hello",)] + [("data", i) for i in range(early + late)]
+    return {"variant": variant, "edge": None, "passive": False, "corrupt": None, "script": script, "chunk": chunk,
+            "hold": [False] * len(script), "gate_from": 2 + early,
+            "glue": list(range(1, 1 + early)) if glue else []}
+
+
+def preempt_search(chk, scn, kind, budget, bound=2):
+    """one preemption at every scheduling point after the state became transport, then two (first the pairs
+    whose second preemption hits a thread that has just released the flush lock or is about to deliver a
+    frame upward); stops at the first violation with a concrete failing schedule.  Returns (#runs, stopped)."""
+    ctx = chk.ctx
+    runs = [0]
+
+    def concrete():
+        return any(v["found_input"] for v in ctx.violations)
+
+    def run(points):
+        ch = PreemptChooser(points)
+        chk.run_case(scn, ch, 7, kind)
+        runs[0] += 1
+        return ch
+
+    def cands(ch, after):
+        return [h for h in ch.hist if h["idx"] > after and h["cur"] is not None and len(h["ready"]) > 1]
+
+    base = run(())
+    if concrete():
+        return runs[0], True
+    frontier = [((), base)]
+    for depth in range(bound):
+        nxt = []
+        for prio in (True, False):
+            for pts, ch in frontier:
+                for h in cands(ch, max(pts) if pts else -1):
+                    if (h["op"] in ("released", "up")) != prio:
+                        continue
+                    if runs[0] >= budget:
+                        return runs[0], False
+                    c2 = run(pts + (h["idx"],))
+                    if concrete():
+                        return runs[0], True
+                    nxt.append((pts + (h["idx"],), c2))
+        frontier = nxt
+    return runs[0], False
+
+
 def explore(chk, scn, limit, kind, chunk_seed=7):
     """stateless DFS over ALL schedules of the scenario at the scheduler's granularity"""
     prefix, count, complete = [], 0, True
@@ -598,10 +695,36 @@ def run(ctx):
         if len(ctx.violations) >= 5 and any(v["found_input"] for v in ctx.violations):
             break
 
+    # 1b. the window at handshake completion: frames queued during the handshake are flushed by the WORKER while
+    #     the network thread receives the next frame.  Systematic: one / two preemptions at every scheduling
+    #     point after the state became transport (incl. right after the release of the flush lock and at every
+    #     delivery outside it); then random / priority schedules over the same scenarios.  Runs on even when the
+    #     trace replay has broken (unknown operation order): what is searched for is a schedule whose delivered
+    #     frame sequence is out of order / duplicated / incomplete.
+    win = {}
+    wshapes = [("IK", 1, 1, 60, 2), ("XX", 1, 1, 110, 2), ("FB", 1, 1, 110, 2), ("IK", 2, 2, 40, 1), ("IK", 3, 1, 40, 1)] \
+        if quick else [(v, e, l, 1500, 2) for v in ("IK", "XX", "FB") for e in (1, 2, 3) for l in (1, 2)]
+    for v, e, l, budget, bound in wshapes:
+        if any(x["found_input"] for x in ctx.violations):
+            break
+        n, stopped = preempt_search(chk, window_scn(v, e, l), "window-preempt", budget, bound)
+        win["%s/%d+%d" % (v, e, l)] = {"schedules": n, "max_preemptions": bound, "stopped_at_violation": stopped}
+    for i in range(60 if quick else 3000):
+        if any(x["found_input"] for x in ctx.violations):
+            break
+        scn = window_scn(rng.choice(["IK", "IK", "XX", "FB"]), rng.randint(1, 3), rng.randint(1, 2),
+                         glue=rng.random() < .7, chunk=rng.choice(["whole", "whole", "small", "rand"]))
+        if rng.random() < .3:
+            scn["gate_from"] = None          # the late frames may also arrive during the handshake
+        chooser = (lambda ready, s, r=random.Random(rng.random()): r.choice(ready)) if i % 2 else \
+            pct_chooser(random.Random(rng.random()), depth=rng.randint(1, 3), horizon=80)
+        chk.run_case(scn, chooser, rng.randrange(1 << 30), "window-random")
+    ctx.coverage["handshake_completion_window"] = win
+
     # 2. exhaustive enumeration of every schedule for small scenarios
     exh = {}
     shapes = [("XX", 0, None), ("IK", 1, None), ("FB", 1, None), ("XX", 0, 5), ("IK", 0, 9)] if quick else \
-             [(v, n, c) for v in ("XX", "IK", "FB") for n in (0, 1, 2, 3) for c in (None,)] + \
+             [(v, n, c) for v in ("XX", "IK", "FB") for n in (0, 1, 2) for c in (None,)] + \
              [(v, 0, 3) for v in ("XX", "IK", "FB")]
     for v, n, c in shapes:
         if any(x["found_input"] for x in ctx.violations):
@@ -609,7 +732,9 @@ def run(ctx):
         scn = {"variant": v, "edge": None, "passive": False, "corrupt": c,
                "script": [("auth",), ("hello",)] + [("data", i) for i in range(n)], "chunk": "whole",
                "hold": [False] * (n + 2)}
-        cnt, complete = explore(chk, scn, 1500 if quick else 40000, "exhaustive")
+        # (the scheduling points after a lock release / at deliveries outside the lock multiplied the schedule
+        #  space; deeper scenarios are covered by the bounded-preemption search of 1b instead)
+        cnt, complete = explore(chk, scn, (300 if n else 1500) if quick else (8000 if n < 2 else 1500), "exhaustive")
         exh["%s/%d%s" % (v, n, "/fail" if c is not None else "")] = {"schedules": cnt, "complete": complete}
     ctx.coverage["exhaustive_scenarios"] = exh
     ctx.coverage["exhaustive"] = False
@@ -698,7 +823,8 @@ def run(ctx):
     ctx.coverage["harness_wall_s"] = round(time.time() - t0, 1)
     return ctx.finish(
         rule="case = (scenario: variant XX/IK/IK->XXfallback x edge routing x passive x user-agent fields x "
-             "authenticating/corrupted hello x 0..4 transport segments x chunking of the server bytes; or a history "
+             "authenticating/corrupted hello x 0..4 transport segments x chunking of the server bytes; or 1..3 frames "
+             "pushed behind the server hello + 1..2 frames after the transition, under bounded-preemption schedules; or a history "
              "of 2..4 logins on one stack instance whose passive flag / pushname / mcc / mnc / fdid / server key "
              "change between logins, "
              "schedule: list of thread choices at queue/lock/state-check/profile-write/thread-start points); "
